@@ -191,6 +191,9 @@ def function(ex, dotted, args, kwargs, node):
         if isinstance(v, VOpaque) and v.kind == "gen_nonempty":
             return VBool(v.data)
         raise Unsupported(f"{d}({v!r})")
+    if d == "bool":
+        t = ex.truth(args[0])
+        return t if isinstance(t, bool) else VBool(t)
     if d == "isinstance":
         h = getattr(ex.world, "isinstance", None)
         if h is None:
